@@ -26,7 +26,10 @@ def load(path, **kw):
 
     if isinstance(kw.get('subsamples'), dict):
         kw['subsamples'] = dict(kw['subsamples'])  # the loader pops keys from the user's dict
-    with warnings.catch_warnings():
+    import contextlib
+    import io
+
+    with warnings.catch_warnings(), (contextlib.redirect_stdout(io.StringIO()) if kw.get('verbose') else contextlib.nullcontext()):
         warnings.simplefilter('ignore')
         try:
             return CompaSOHaloCatalog(path, **kw), None
